@@ -45,6 +45,8 @@ func cliStage(r *mon.Run) {
 	fkI := mon.DetBytes("c03cli-fk-i", 16)
 	encID := refage.BuildFile(fkI, []refage.Stanza{refage.ScryptWrap(fkI, idpass, mon.DetBytes("c03cli-salt-i", 16), 10)}, mon.DetBytes("c03cli-nonce-i", 16), []byte(x1.SecretStr+"\n"))
 	os.WriteFile(filepath.Join(work, "x1.key"), []byte(x1.SecretStr+"\n"), 0o600)
+	os.WriteFile(filepath.Join(work, "x1copy.key"), []byte("# copy\n"+x1.SecretStr+"\n"), 0o600)
+	os.WriteFile(filepath.Join(work, "x4.key"), []byte(keys.NewX("X4").SecretStr+"\n"), 0o600)
 
 	type group struct {
 		name   string
@@ -60,6 +62,16 @@ func cliStage(r *mon.Run) {
 		{"native-file-plain-key", xFile, func(dir string, ed []byte) *cli.Result {
 			os.WriteFile(filepath.Join(dir, "in.age"), ed, 0o600)
 			return cli.Run(&cli.Cmd{Argv: []string{age, "-d", "-i", filepath.Join(work, "x1.key"), "-o", "out", "in.age"}, Dir: dir})
+		}},
+		// the same key file named twice: two identities of one Decrypt call
+		// open the file (also a key file next to a copy of it)
+		{"native-file-plain-key-twice", xFile, func(dir string, ed []byte) *cli.Result {
+			os.WriteFile(filepath.Join(dir, "in.age"), ed, 0o600)
+			return cli.Run(&cli.Cmd{Argv: []string{age, "-d", "-i", filepath.Join(work, "x1.key"), "-i", filepath.Join(work, "x1.key"), "-o", "out", "in.age"}, Dir: dir})
+		}},
+		{"native-file-key-and-copy-behind-other", xFile, func(dir string, ed []byte) *cli.Result {
+			os.WriteFile(filepath.Join(dir, "in.age"), ed, 0o600)
+			return cli.Run(&cli.Cmd{Argv: []string{age, "-d", "-i", filepath.Join(work, "x4.key"), "-i", filepath.Join(work, "x1.key"), "-i", filepath.Join(work, "x1copy.key"), "-o", "out", "in.age"}, Dir: dir})
 		}},
 		{"native-file-encrypted-identity", xFile, func(dir string, ed []byte) *cli.Result {
 			os.WriteFile(filepath.Join(dir, "in.age"), ed, 0o600)
@@ -101,6 +113,9 @@ func cliStage(r *mon.Run) {
 		for i := 0; i < he; i++ {
 			for b := 0; b < 8; b++ {
 				if !r.Thorough() && (i*8+b)%3 != 0 && !(g.victim[i] >= '0' && g.victim[i] <= '9') {
+					continue
+				}
+				if !r.Thorough() && strings.HasPrefix(g.name, "native-file-key-and-copy") && (i*8+b)%9 != 0 {
 					continue
 				}
 				ed := append([]byte(nil), g.victim...)
